@@ -4046,6 +4046,16 @@ class GraphTraversalReachability:
         commits, _bases = _collect_ancestors(
             self.store, heads, exclude_set, shallow_set
         )
+        if exclude_set and commits:
+            # Stopping at the excluded commits is not enough: their ancestors
+            # can also be reached along a path that avoids them.
+            excluded, _bases = _collect_ancestors(
+                self.store,
+                [sha for sha in exclude_set if sha in self.store],
+                frozenset(),
+                shallow_set,
+            )
+            commits -= excluded
         return commits
 
     def get_tree_objects(
